@@ -740,6 +740,46 @@ static void sp_case(uint64_t idx, void *ctx)
     if (n) mc_nontrivial();
 }
 
+/* ---- a splice whose result is larger than 1 MiB, followed by ordinary splices on other objects (what the large one needed is its own business) */
+static void ls_desc(uint64_t idx, void *ctx, char *b, size_t n) { (void) ctx; snprintf(b, n, CLS " of %d bytes: splice(1,2,object \"XYZ\") / splice_from_ptr, then splice(1,2,\"XY\") on a 6-byte buffer, both twins", idx ? 3 << 20 : (1 << 20) + 1); }
+static void ls_case(uint64_t idx, void *ctx)
+{
+    size_t n = idx ? (size_t) 3 << 20 : ((size_t) 1 << 20) + 1; (void) ctx; const char *shape = "after a splice of more than 1 MiB"; mc_set_shape(shape);
+    unsigned char *big = malloc(n); for (size_t i = 0; i < n; i++) big[i] = (unsigned char) (i * 7 + (i >> 11));
+    for (int twin = 0; twin < 2; twin++) {
+        T o = F(new_from_ptr)(big, (IDX) n), x = F(new_from_ptr)((spif_byteptr_t) "XYZ", 3);
+        spif_bool_t r = twin ? F(splice_from_ptr)(o, 1, 2, (spif_byteptr_t) "XYZ", 3) : F(splice)(o, 1, 2, x);
+        if (!r || o->len != (IDX) n + 1 || o->buff[0] != big[0] || memcmp(o->buff + 1, "XYZ", 3) || memcmp(o->buff + 4, big + 3, n - 3)) FAIL(twin ? CLS "_splice_from_ptr" : CLS "_splice", "model:bytes", shape, "the large splice gave a wrong result (len %ld)", (long) o->len);
+        F(del)(x); F(del)(o);
+        for (int t2 = 0; t2 < 2; t2++) {
+            T s6 = F(new_from_ptr)((spif_byteptr_t) "abcdef", 6), y = F(new_from_ptr)((spif_byteptr_t) "XY", 2);
+            spif_bool_t r2 = t2 ? F(splice_from_ptr)(s6, 1, 2, (spif_byteptr_t) "XY", 2) : F(splice)(s6, 1, 2, y);
+            if (!r2 || s6->len != 6 || !s6->buff || memcmp(s6->buff, "aXYdef", 6)) FAIL(t2 ? CLS "_splice_from_ptr" : CLS "_splice", "model:bytes", shape, "an ordinary splice after the large one gave a wrong result");
+            F(del)(y); F(del)(s6);
+        }
+    }
+    free(big);
+    mc_nontrivial();
+    mc_outcome(idx);
+}
+/* ---- buffers whose lengths differ by 2^31 and more (plain build: the big block is calloc'ed and never touched): the shorter of two equal-prefix buffers orders first */
+static const long long HUGE_DIFF[] = { 2147483647LL, 2147483648LL, 2147483649LL, 4294967296LL, 4294967297LL };
+static void hm_desc(uint64_t idx, void *ctx, char *b, size_t n) { (void) ctx; snprintf(b, n, CLS " cmp/comp of a 1-byte buffer {0} with a buffer of 1 + %lld zero bytes, both directions", HUGE_DIFF[idx]); }
+static void hm_case(uint64_t idx, void *ctx)
+{
+    long long bigl = HUGE_DIFF[idx] + 1; (void) ctx; const char *shape = "equal prefix, lengths 2^31 or more apart"; mc_set_shape(shape);
+    T a = F(new_from_ptr)((spif_byteptr_t) "\0", 1), b = F(new)();
+    void *blk = calloc((size_t) bigl, 1);
+    if (!blk) { F(del)(a); F(del)(b); return; }
+    b->buff = blk; b->len = (IDX) bigl; b->size = (IDX) bigl;          /* the object takes the block over (del frees it) */
+    int ab = cmpv(F(cmp)(a, b)), ba = cmpv(F(cmp)(b, a));
+    if (ab != -1 || ba != 1) FAIL(CLS "_cmp", "model:return", shape, "cmp(short,long)=%d cmp(long,short)=%d", ab, ba);
+    ab = cmpv(F(comp)(a, b)); ba = cmpv(F(comp)(b, a));
+    if (ab != -1 || ba != 1) FAIL(CLS "_comp", "model:return", shape, "comp(short,long)=%d comp(long,short)=%d", ab, ba);
+    F(del)(a); F(del)(b);
+    mc_nontrivial();
+    mc_outcome(idx);
+}
 int main(int argc, char **argv)
 {
 #ifdef VERIF_LEAKRUN
@@ -748,6 +788,7 @@ int main(int argc, char **argv)
     mc_init("C07", argc, argv);
 #endif
     libast_debug_level = (unsigned) mc_dlevel();        /* --dlevel=N: the whole run at runtime debug level N (default 0) */
+    if (mc_arg("only", NULL) && !strcmp(mc_arg("only", ""), "huge")) { mc_e2_level(CLS "_huge_length_difference", 1, 5, hm_case, hm_desc, NULL); return mc_finish(); }
     L = (int) mc_arg_int("L", mc_thorough() ? 5 : 3);
     NS = (int) mc_arg_int("sigma", mc_thorough() ? 4 : 3);
     memcpy(SIG, "\0a \xff", 4);
@@ -764,6 +805,7 @@ int main(int argc, char **argv)
     if (!mc_arg("only", NULL) || !strcmp(mc_arg("only", ""), "ctor"))
         mc_e2_level(CLS "_stream_ctor", g_k * 10 + g_dev, (uint64_t) NSRC * NLENS, sc_case, sc_desc, NULL);
     if (!mc_arg("only", NULL)) mc_e2_level(CLS "_extreme_index", 64, (uint64_t) NEXT * NEXT, ex_case, ex_desc, NULL);
+    if (!mc_arg("only", NULL)) mc_e2_level(CLS "_large_splice", 3 << 20, 2, ls_case, ls_desc, NULL);
     if (!mc_arg("only", NULL)) mc_e2_level(CLS "_long_buffer", 65537, (uint64_t) NLT * NLO, lt_case, lt_desc, NULL);
     if (!mc_arg("only", NULL)) { mc_e2_level(CLS "_stream_history", 1, 30, sh_case, sh_desc, NULL); mc_e2_level(CLS "_fd_hard_error", 1, NHE, he_case, he_desc, NULL); mc_e2_level(CLS "_procfs_file", 1, 1, pf_case, pf_desc, NULL); }
     if (!mc_arg("only", NULL)) { int maxn = (int) mc_arg_int("spmax", mc_thorough() ? 9000 : 4200); mc_e2_level(CLS "_sprintf_len", maxn, (uint64_t) (maxn + 1) * 3, sp_case, sp_desc, NULL); }
